@@ -64,6 +64,13 @@ PROPS = {
                    ' bounded stand-in / not covered'],
         bounded=[CB('persistent-contracts', 'contracts/persistent.py', 'gens_persistent')],
     ),
+    'C14': dict(
+        contract_files=['contracts/statemachine.py'],
+        level='proof',
+        trusted_base=COMMON_TRUSTED + ['state / cleanup / transition functions are abstract callables (any result, any Exception; transition hooks do not raise)'],
+        uncovered=['bound on the number of state calls per cycle (termination, A7); init flag seen exactly by the first call of a state;'
+                   ' last-start-wins across interleavings with a second thread; status derivation of HasStates (frappy/states.py): bounded / not covered'],
+    ),
     'C07': dict(
         contract_files=['contracts/protocol.py'],
         level='proof',
